@@ -34,7 +34,7 @@ def plan(tier, prop):
         "budget_s": 50 if quick else 800,
         "chunk": 20 if quick else 100,
         "rule": "each run = one seeded machine (1x1..16x16, thorough: sparse "
-                "up to 256x256 addressing), 1-3 load_application calls "
+                "up to 255x255 addressing), 1-3 load_application calls "
                 "(1-4 binaries, arbitrary target maps, wait/use_count/n_tries "
                 "drawn, per-attempt per-chip flood-fill misses, SCP faults) "
                 "and a healed load; non-trivial = at least one load returned "
@@ -47,7 +47,7 @@ def plan(tier, prop):
                             "op_timeout", "ff_miss_start", "ff_miss_block",
                             "ff_miss_end"],
         "knob_ranges": {"buffer_size": BUFFERS, "machine": "1x1..16x16 "
-                        "(thorough also 64x64/256x256 sparse)",
+                        "(thorough also 64x64/255x255 sparse)",
                         "binaries": "1-4, 4 bytes .. 6 buffers",
                         "n_tries": "0-3", "wait": [True, False],
                         "use_count": [True, False]},
@@ -438,7 +438,7 @@ class LoadEngine(object):
         c = self.c = Ctl(w, buffers=BUFFERS, n_tries_range=(2, 5))
         big = self.tier == "thorough" and t.draw(20) == 0
         if big:
-            dim = [64, 256][t.draw(2)]
+            dim = [64, 255][t.draw(2)]
             width = height = dim
         else:
             width = [1, 2, 3, 4, 5, 8, 12, 16][t.draw(8)]
